@@ -164,15 +164,20 @@ static std::string *g_viol = nullptr;
 static const uint64_t MAGIC = 0x5AFEC0DE12345678ull; static const int ALIVE = 0x600DF00D, DEAD = 0x0DEAD0DE;
 struct Probe {
   uint64_t head; int serial; int live;      // head overlays Block::next of the pool's free list
-  explicit Probe(int s) { g_ctor++;
-    if (g_inuse.count(this) && g_viol && g_viol->empty()) *g_viol = "pool-constructs-in-storage-still-in-use";
-    head = MAGIC ^ (uint64_t)s; serial = s; live = ALIVE; }
+  explicit Probe(int s);
   ~Probe() { g_dtor++;
     if (live != ALIVE && g_viol && g_viol->empty()) *g_viol = "pool-destructs-object-that-is-not-alive";
     live = DEAD; head = 0; }
 };
-enum { ALLOC, FREE };
+enum { ALLOC, FREE, ALLOC_NEST };
 typedef tbox::ObjectPool<Probe> Pool;
+// ALLOC_NEST: the constructor of the object being allocated allocates another object from the same pool (a node that builds its
+// child). While the outer constructor runs its storage is in use, so the nested alloc() must not hand it out again.
+static Pool *g_nest_pool = nullptr; static Probe *g_nested = nullptr; static int g_nested_serial = 0;
+Probe::Probe(int s) { g_ctor++;
+  if (g_inuse.count(this) && g_viol && g_viol->empty()) *g_viol = "pool-constructs-in-storage-still-in-use";
+  if (g_nest_pool) { Pool *pp = g_nest_pool; g_nest_pool = nullptr; g_inuse.insert(this); g_nested = pp->alloc(g_nested_serial); }
+  head = MAGIC ^ (uint64_t)s; serial = s; live = ALIVE; }
 
 static std::string run(const std::vector<Op> &h, std::string &viol, size_t keep, bool dflt) {
   g_ctor = g_dtor = 0; g_inuse.clear(); g_viol = &viol;
@@ -212,7 +217,23 @@ static std::string run(const std::vector<Op> &h, std::string &viol, size_t keep,
       if (!parked) blk.erase(l.p);          // really given back to malloc; the address may come back as a new block
     };
     for (auto &o : h) {
-      if (o.k == ALLOC) {
+      if (o.k == ALLOC_NEST) {
+        long c0 = g_ctor, d0 = g_dtor;
+        int outer = ++serial, inner = ++serial; g_nested = nullptr; g_nested_serial = inner; g_nest_pool = &P;
+        Probe *p = P.alloc(outer); allocs += 2; g_nest_pool = nullptr; Probe *q = g_nested;
+        if (!viol.empty()) break;
+        if (p == nullptr || q == nullptr) { viol = "pool-alloc-returns-null"; break; }
+        if (p == q) { viol = "pool-nested-alloc-hands-out-the-storage-under-construction"; break; }
+        for (auto &l : live) if (l.p == p || l.p == q) { viol = "pool-hands-out-storage-still-in-use"; break; }
+        if (!viol.empty()) break;
+        if (g_ctor != c0 + 2) { viol = "pool-nested-alloc-constructor-count"; break; }
+        if (g_dtor != d0) { viol = "pool-alloc-runs-destructor"; break; }
+        if (p->live != ALIVE || p->serial != outer || q->live != ALIVE || q->serial != inner) { viol = "pool-nested-alloc-object-not-constructed-with-arguments"; break; }
+        g_out["pool:alloc-nested"]++;
+        if (!blk.count(q)) blk[q] = next_blk++;     // the inner object is complete first
+        if (!blk.count(p)) blk[p] = next_blk++;
+        live.push_back(L{q, inner, blk[q]}); g_inuse.insert(q); live.push_back(L{p, outer, blk[p]}); g_inuse.insert(p);
+      } else if (o.k == ALLOC) {
         long c0 = g_ctor, d0 = g_dtor; bool had_parked = P.free_header_ != nullptr;
         Probe *p = P.alloc(++serial); allocs++;
         if (!viol.empty()) break;
@@ -252,10 +273,10 @@ static void main_(size_t depth, const char *keep_s) {
   bool dflt = !strcmp(keep_s, "max"); size_t keep = dflt ? std::numeric_limits<size_t>::max() : (size_t)atol(keep_s);
   hx::Explorer<Op> ex; ex.name = std::string("pool/keep") + keep_s;
   ex.deadline_s = hx::deadline_from_env(600);
-  ex.show = [](const Op &o) { char b[32]; if (o.k == ALLOC) snprintf(b, 32, "alloc"); else snprintf(b, 32, "free(live[%d])", o.a); return std::string(b); };
+  ex.show = [](const Op &o) { char b[32]; if (o.k == ALLOC) snprintf(b, 32, "alloc"); else if (o.k == ALLOC_NEST) snprintf(b, 32, "alloc(ctor-allocs-a-child)"); else snprintf(b, 32, "free(live[%d])", o.a); return std::string(b); };
   ex.menu = [&](const std::vector<Op> &h) {
-    int n = 0; for (auto &o : h) n += o.k == ALLOC ? 1 : -1;
-    std::vector<Op> m; m.push_back({ALLOC, 0, 0});
+    int n = 0; for (auto &o : h) n += o.k == ALLOC ? 1 : o.k == ALLOC_NEST ? 2 : -1;
+    std::vector<Op> m; m.push_back({ALLOC, 0, 0}); m.push_back({ALLOC_NEST, 0, 0});
     for (int i = 0; i < n; i++) m.push_back({FREE, i, 0});          // each live object (index into the live list)
     return m; };
   ex.run = [&](const std::vector<Op> &h, std::string &v) { return run(h, v, keep, dflt); };
